@@ -275,6 +275,7 @@ fn main() {
                 models.insert(s(&op["id"]), model_bytes(&op["data"]));
                 json!({"ok": true})
             }
+            "model_dump" => json!({"ok": true, "bytes": models.get(&s(&op["model"])).cloned().unwrap_or_default()}),
             "model_bytes" => {
                 models.insert(s(&op["id"]), u8s(&op["bytes"]));
                 json!({"ok": true})
